@@ -55,6 +55,14 @@ def oracle_wellformed(case, ctx):
     ctx.label("labels:%s" % case["label_kind"])
     ctx.mark_nontrivial(k >= 3 or case["label_kind"] != "int" or case["unbalanced"])
     clf = panelpool.build_classifier(spec)
+    if case.get("prefit"):
+        # the same object was trained before on another problem (other labels, one more class,
+        # other length): everything below refers to the LAST fit
+        k0 = min(k + 1, 4)
+        X0, cls0 = panelpool.separable_panel(case["seed"] + 17, n + 2, c, t + 3, k0)
+        lab0 = ["q", "r", "s", "t"][:k0] if case["label_kind"] != "str" else [100, 200, 300, 400][:k0]
+        sut(clf.fit, panelpool.to_nested(X0), np.array([lab0[j] for j in cls0]))
+        ctx.label("refitted")
     r = sut(clf.fit, X, y_in)
     if isinstance(r, Raised):
         ctx.mark_rejected()
@@ -85,9 +93,30 @@ def oracle_wellformed(case, ctx):
         # the declared one (the classifier itself need not be perfect on its training data)
         ident = float(np.mean(am == true_col))
         best = max(float(np.mean(np.array([pm[a] for a in am]) == true_col)) for pm in itertools.permutations(range(len(want_classes))))
-        if best > ident + 1e-12 and best >= 0.75:
+        # sound only with overwhelming evidence: the classifier is PERFECT under another column
+        # assignment and not under the declared one (an inaccurate classifier that merely
+        # confuses two classes never satisfies this)
+        if best > ident + 1e-12 and best == 1.0 and n >= 2 * len(want_classes):
             discs.append(D("columns_not_aligned_with_classes_:%s" % kind, "labels %s: argmax columns %s, true columns %s (declared order %.2f accurate, another order %.2f)"
                            % (want_classes, am.tolist(), true_col.tolist(), ident, best)))
+    if kind in RELABEL_EQUIVARIANT and len(want_classes) >= 2:
+        # metamorphic: the label VALUES are arbitrary. Renaming the classes so that their sort
+        # order is reversed must give the same probabilities with the columns reversed (the
+        # nearest-neighbour dictionary classifiers never look at the label values, and their
+        # random choices are made over instance positions).
+        rev = dict(zip(want_classes, want_classes[::-1]))
+        y2 = np.array([rev[v] for v in y.tolist()])
+        clf2 = panelpool.build_classifier(spec)
+        r2 = sut(clf2.fit, X, pd.Series(y2) if case["y_as_series"] else y2)
+        P2 = sut(clf2.predict_proba, X) if not isinstance(r2, Raised) else r2
+        if isinstance(P2, Raised):
+            discs.append(D("relabelled_run_raised:%s:%s@%s" % (kind, P2.type, P2.where), P2.msg))
+        else:
+            P2 = np.asarray(P2, dtype=float)
+            if P2.shape != P.shape or not np.allclose(P2[:, ::-1], P, atol=1e-9, equal_nan=True):
+                bad = int(np.argmax(~np.isclose(P2[:, ::-1], P, atol=1e-9).all(axis=1))) if P2.shape == P.shape else -1
+                discs.append(D("proba_depends_on_label_values:%s" % kind, "labels %s renamed to %s: instance %d has %s, with the original labels %s"
+                               % (want_classes, want_classes[::-1], bad, P2[bad][::-1].tolist() if bad >= 0 else P2.shape, P[bad].tolist() if bad >= 0 else P.shape)))
     pred = sut(clf.predict, X)
     if isinstance(pred, Raised):
         return discs + [D("apply_raised:%s.predict:%s@%s" % (kind, pred.type, pred.where), pred.msg)]
@@ -112,6 +141,9 @@ def oracle_wellformed(case, ctx):
         if not np.isclose(float(s), frac, atol=1e-12):
             discs.append(D("score_not_fraction_of_matches:%s" % kind, "score %r, fraction %r" % (s, frac)))
     return discs
+
+
+RELABEL_EQUIVARIANT = ("boss", "cboss", "iboss", "itde")
 
 
 def _feat(X2, intervals):
@@ -234,7 +266,7 @@ def wf_cases(draw):
     return {
         "spec": {"kind": kind, "random_state": draw(st.integers(0, 100)), "n_columns": draw(st.integers(1, 2))},
         "n_classes": k, "n_train": draw(st.integers(2 * k + 2, 14)), "t": draw(st.integers(16, 30)),
-        "seed": draw(st.integers(0, 10 ** 6)), "separable": draw(st.booleans()),
+        "seed": draw(st.integers(0, 10 ** 6)), "separable": draw(st.booleans()), "prefit": draw(st.integers(0, 3)) == 0,
         "label_kind": draw(st.sampled_from(["int", "int_gap", "str", "float"])),
         "unbalanced": draw(st.booleans()), "y_as_series": draw(st.booleans()),
         "container": draw(st.sampled_from(["nested", "numpy3d"])),
